@@ -4,7 +4,8 @@ import CollectionsC.Proofs.TSTCross
 
 Allocating calls: the constructor (header) and `add` (`mem_calloc` per new node in `make_mid_subtree`,
 `mem_alloc` for the entry).  All statements hold for every state, every key (the empty one included)
-and every refusal schedule. -/
+and every refusal schedule.  Only the configured triple can refuse (`Mem.allocT .libc` always
+succeeds), so for a table built by `cc_tsttable_new` `add` never fails (`add_libc_never_refused`). -/
 namespace CC.Properties.C08TST
 open CC CC.TST
 open CC.Spec.StrMap (Op Out)
@@ -25,10 +26,10 @@ theorem add_refused_iff (t : Table) (k : Key) (v : Nat) (mem : Mem) :
   · exact h1
 
 /-- **atomic**: after a refusal the table is *identical* (tree, size — hence `abs` and every iterator
-position), the partial node chain was released (`live` unchanged), nothing faulted -/
+position), the partial node chain was released (live-block counter unchanged), nothing faulted -/
 theorem add_atomic (t : Table) (k : Key) (v : Nat) (mem : Mem) (h : (t.add cmp k v mem).1 = .errAlloc) :
     (t.add cmp k v mem).2.1 = t ∧ (t.add cmp k v mem).2.1.abs = t.abs ∧
-    (t.add cmp k v mem).2.2.live = mem.live ∧ (t.add cmp k v mem).2.2.fault = mem.fault := by
+    (t.add cmp k v mem).2.2.liveT t.triple = mem.liveT t.triple ∧ (t.add cmp k v mem).2.2.fault = mem.fault := by
   have := Table.add_atomic_any (cmp := cmp) t k v mem (by rw [h]; simp)
   exact ⟨this.2.1, by rw [this.2.1], this.2.2.1, this.2.2.2⟩
 
@@ -36,14 +37,20 @@ theorem add_atomic (t : Table) (k : Key) (v : Nat) (mem : Mem) (h : (t.add cmp k
 theorem add_succeeds (t : Table) (k : Key) (v : Nat) (mem : Mem) (h : mem.sched = []) :
     (t.add cmp k v mem).1 = .ok := Table.add_unrefused t k v mem h
 
-/-- the constructor: refused ⇒ no object, nothing allocated -/
-theorem new_atomic (mem : Mem) (h : (Table.new mem).1 ≠ .ok) :
-    (Table.new mem).1 = .errAlloc ∧ (Table.new mem).2.1 = none ∧ (Table.new mem).2.2.live = mem.live :=
-  (Table.new_spec mem).2.1 h
+/-- on the C library's allocator nothing is ever refused -/
+theorem add_libc_never_refused (t : Table) (k : Key) (v : Nat) (mem : Mem) (h : t.triple = .libc) :
+    (t.add cmp k v mem).1 = .ok := Table.add_libc_ok t k v mem h
 
-theorem new_refused_iff (mem : Mem) : (Table.new mem).1 = .errAlloc ↔ mem.alloc.1 = false := by
+/-- the constructor: refused ⇒ no object, nothing allocated -/
+theorem new_atomic (tr : Triple) (mem : Mem) (h : (Table.new tr mem).1 ≠ .ok) :
+    (Table.new tr mem).1 = .errAlloc ∧ (Table.new tr mem).2.1 = none ∧
+    (Table.new tr mem).2.2.liveT tr = mem.liveT tr :=
+  (Table.new_spec tr mem).2.1 h
+
+theorem new_refused_iff (tr : Triple) (mem : Mem) :
+    (Table.new tr mem).1 = .errAlloc ↔ (mem.allocT tr).1 = false := by
   unfold Table.new; simp only []
-  cases mem.alloc.1 <;> simp
+  cases (mem.allocT tr).1 <;> simp
 
 /-- no other operation calls the allocator: their status is never `CC_ERR_ALLOC` -/
 theorem only_add_allocates (t : Table) (op : Op) (mem : Mem) (h : (t.step cmp op mem).1.st = some .errAlloc) :
@@ -60,9 +67,11 @@ theorem only_add_allocates (t : Table) (op : Op) (mem : Mem) (h : (t.step cmp op
   | removeAll => simp [Table.step] at h
   | size => simp [Table.step] at h
   | enumerate => simp [Table.step] at h
+  | iterate prog => simp [Table.step] at h
 
 /-- **continue**: a refused `add` in the middle of a history is as if it had not been issued — the
-outputs of the other operations and the final table are those of the history without it -/
+outputs of the other operations and the final table are those of the history without it (for every
+schedule of the other operations) -/
 theorem continue_after_refusal (t : Table) (ops₁ ops₂ : List Op) (k : Key) (v : Nat) (sched : List Bool) (mem : Mem)
     (h : ((t.run cmp ops₁ mem).2.1.step cmp (.add k v sched) (t.run cmp ops₁ mem).2.2).1.st = some .errAlloc) :
     (t.run cmp (ops₁ ++ [.add k v sched] ++ ops₂) mem).1 =
@@ -85,5 +94,13 @@ theorem continue_after_refusal (t : Table) (ops₁ ops₂ : List Op) (k : Key) (
   simp only [List.singleton_append, Table.run, e1]
   refine ⟨?_, hind.2, trivial⟩
   rw [hind.1]; simp
+
+/-! non-vacuity: every request of `add "abc"` into the nested-prefix table refused in turn -/
+example :
+    (C11.nestedTable.add cmpSigned [97, 98, 99] 9 { sched := [true], live := 7 }).1 = .errAlloc ∧
+    (C11.nestedTable.add cmpSigned [97, 98, 99] 9 { sched := [false, true], live := 7 }) =
+      (.errAlloc, C11.nestedTable, { sched := [], live := 7, nalloc := 1, nfree := 1, nrefused := 1 }) ∧
+    (C11.nestedTable.add cmpSigned [97, 98, 99] 9 { sched := [false, false], live := 7 }).1 = .ok := by
+  decide
 
 end CC.Properties.C08TST
